@@ -379,6 +379,10 @@ func Run(c *Case, props map[string]bool) (res Result) {
 		if pidx >= 0 && stat(prev) == stRec && (ta == "" || m.idx(ta) > pidx) {
 			lab["recovering-current-kept"]++
 			if got != prev {
+				if D == 0 {
+					// without a switching delay C13 pins Current() exactly: "the recovering current endpoint if no higher-priority endpoint is available"
+					fail("C14|C13", "B.recoveryWindow", "%s: current %q is recovering and no higher-priority endpoint is available, yet current became %q (list %v)", what, prev, got, m.list)
+				}
 				fail("C14", "B.recoveryWindow", "%s: current %q is recovering and no higher-priority endpoint is available, yet current became %q (list %v)", what, prev, got, m.list)
 			}
 		}
